@@ -92,10 +92,15 @@ impl Header {
         // value, so a future REPE revision can assign meaning to these bits
         // without breaking this receiver.
 
-        let expected = HEADER_SIZE as u64 + query_length + body_length;
-        if length != expected {
+        // The length fields are attacker-controlled 64-bit values: their sum can
+        // exceed `u64::MAX`, in which case no `length` can be consistent.
+        let expected = match (HEADER_SIZE as u64).checked_add(query_length) {
+            Some(prefix) => prefix.checked_add(body_length),
+            None => None,
+        };
+        if expected != Some(length) {
             return Err(RepeError::LengthMismatch {
-                expected,
+                expected: expected.unwrap_or(u64::MAX),
                 got: length,
             });
         }
